@@ -61,6 +61,15 @@ def programs(rng, tier):
         # keep programs small so that a crash is attributable
         for i in range(0, len(body), 6):
             out.append({"src": IMPORTS + "".join(body[i:i + 6]), "include": None, "config": None})
+    # the last name of every keyed function called as a method of receivers that are not plain names (attribute chains,
+    # subscripts, calls, operators, literals) and as a bare name: a check that looks at the receiver must cope with all of them
+    recvs = ["self.zz_p.%s", "zz_l[0].%s", "zz_f('x').%s", "(zz_a / 'x').%s", "''.%s", "%s", "zz_m.zz_n.zz_o.%s", "(lambda: 0).%s", "[].%s"]
+    rargs = ["", "0o777", "'x', 0o777", "mode=0o777", "zz_v", "'lit'", "1, 2, 3", "shell=True", "*a", "**k"]
+    lasts = sorted({n.rsplit(".", 1)[-1] for n in KEYED if n.rsplit(".", 1)[-1].isidentifier()})
+    for last in (lasts if tier == "thorough" else sorted(set(rng.sample(lasts, 10)) | {"chmod", "extractall", "execute", "load"})):
+        body = ["%s(%s)\n" % (r_ % last, a) for r_ in recvs for a in (rargs if tier == "thorough" or last == "chmod" else rng.sample(rargs, 4))]
+        for i in range(0, len(body), 6):
+            out.append({"src": IMPORTS + "".join(body[i:i + 6]), "include": None, "config": None})
     for s in STMTS:
         out.append({"src": IMPORTS + s, "include": None, "config": None})
     # the same material under selections that leave some node type of the built-in blacklist check without a rule, keep
@@ -72,6 +81,16 @@ def programs(rng, tier):
     for src in sel_srcs:
         for inc, exc in sels:
             out.append({"src": src, "include": inc, "exclude": exc, "config": None})
+    # every kind of finding (node checks with one-line and multi-line spans, the file-level check whose reported line lies
+    # outside its context's line range) next to every form of nosec comment: the tester's comment handling runs inside the
+    # catch-all too, so a comment may not make a check raise either
+    forms = ["# nosec", "# nosec B105", "# nosec B613", "# nosec B101, B613", "# nosec hardcoded_password_string", "#nosec: B602,B101",
+             "# nosec B999", "# an ordinary comment", "# nosec trojansource B105"]
+    lines = ["zz_password = 'a\u202eb'", "assert zz_x, '\u2066'", "zz_y = 1  # \u2069 tail", "zz_s = \"\"\"\u202d\"\"\"",
+             "subprocess.Popen(zz_c,\n    shell='\u2067')", "exec(zz_c)"]
+    for ln in lines:
+        for i in range(0, len(forms), 3):
+            out.append({"src": IMPORTS + "".join("%s  %s\n" % (ln, f_) for f_ in forms[i:i + 3]), "include": None, "config": None, "keep": True})
     ex = sorted(glob.glob(os.path.join(os.environ.get("VERIF_REPO", "/repo"), "examples", "*.py")))
     for f in (ex if tier == "thorough" else rng.sample(ex, 12)):
         try:
